@@ -473,7 +473,7 @@ def circuit_prop_src(build, Hsrc, wsum):
 
 def corr_symbolic(ctx):
     rng = ctx.rng
-    lines, meta = [], []
+    lines, meta, mid_lines = [], [], []
     N = 160 if ctx.thorough else 70
     for k in range(N):
         n = rng.choice([2, 3, 3, 4, 4, 4])
@@ -502,7 +502,10 @@ def corr_symbolic(ctx):
             continue
         lines.append(raw_case_line("ADIAB", raw, 1 - s, s))
         meta.append(("adiab", n, (ms0, ms1), (c0, c1), dt, (h0, h1), s))
-    answers = run_driver(lines, driver=DRIVER)
+        mid_lines.append(raw_case_line("ADIAB", raw, -s, s + 1))  # the same object asked at time s + 1 in between
+    all_answers = run_driver(lines + mid_lines, driver=DRIVER)
+    answers, mid_answers = all_answers[:len(lines)], all_answers[len(lines):]
+    mid_iter = iter(mid_answers)
     bad = {"sym": 0, "adiab": 0}
     for (kind, n, ms, const, dt, h, s), ans in zip(meta, answers):
         groups, queue = parse_terms_answer(ans)
@@ -542,6 +545,7 @@ def corr_symbolic(ctx):
         else:
             ms0, ms1 = ms
             h0, h1 = h
+            _, mid_queue = parse_terms_answer(next(mid_iter))
             src = circuit_prop_src(
                 f"n = {n}; s = {s}\nh0 = SymbolicHamiltonian({poly_src(ms0, const[0])}, nqubits=n)\nh1 = SymbolicHamiltonian({poly_src(ms1, const[1])}, nqubits=n)\n"
                 "ah = AdiabaticHamiltonian(h0, h1); ah.schedule = lambda x: x; ah.total_time = 1.0\ncirc = lambda dt: ah.circuit(dt, t=float(s))\n",
@@ -553,13 +557,17 @@ def corr_symbolic(ctx):
                 ah.schedule = lambda x: x
                 ah.total_time = 1.0
                 real = gate_list(ah.circuit(dt, t=float(s)))
-                ah.circuit(dt / 2, t=float(s) + 1.0)  # another time and step in between
+                real_mid = gate_list(ah.circuit(dt / 2, t=float(s) + 1.0))  # another time and step in between
                 real2 = gate_list(ah.circuit(dt, t=float(s)))
             except Exception as ex:  # noqa: BLE001
                 bad["adiab"] += 1
                 fail(ctx, "adiabatic-circuit:raises", f"adiabatic circuit raises {type(ex).__name__}: {ex}", src, broken=["C16_corr_adiabatic"])
                 continue
             msg = compare_queue(real, queue, dt / 2)
+            if msg is None:
+                msg = compare_queue(real_mid, mid_queue, dt / 4)
+                if msg:
+                    msg = f"call at another time (s={s + 1}, dt/2) after the first: " + msg
             if msg is None:
                 msg = compare_queue(real2, queue, dt / 2)
                 if msg:
